@@ -49,6 +49,10 @@ type Base struct {
 	// AfterOp, if set, is called after every operation that completed on the
 	// inner store (before a CrashAfter/ErrAfter action takes effect).
 	AfterOp func(op string)
+	// HonourCtx makes every operation fail with the context's error when it
+	// is called with a context that is already done, as a network or SQL
+	// store does.
+	HonourCtx bool
 	// dead is set by a crash: from then on nothing reaches the inner store.
 	dead bool
 }
@@ -128,6 +132,9 @@ func (b *Base) Seq() int {
 func (b *Base) pre(a Action, op string, ctx context.Context) error {
 	if a.CrashBefore {
 		b.crash("before " + op)
+	}
+	if b.HonourCtx && ctx.Err() != nil && a.Err == nil {
+		return ctx.Err()
 	}
 	if a.Block {
 		if ctx.Done() == nil {
